@@ -212,6 +212,98 @@ pub fn run(c: &C18Case) -> Outcome {
 	o
 }
 
+// ------------------------------------------------------------------ hook applies on every spawn path
+
+#[derive(Clone, Debug, Serialize, Deserialize)]
+pub struct HookPathCase {
+	/// 0 restart, 1 try_restart, 2 restart_with_signal, 3 try_restart_with_signal
+	pub ops: Vec<u8>,
+	/// the command ignores the stop signal (so graceful variants run out of grace)
+	pub ignore: bool,
+	pub value: String,
+}
+
+fn run_hook_paths(c: &HookPathCase) -> Outcome {
+	use watchexec_signals::Signal;
+	let mut o = Outcome::pass();
+	o.nontrivial = c.ops.len() >= 2;
+	o.label(if c.ignore { "command-ignores-signal" } else { "command-exits-on-signal" });
+	let logs = super::c08::Logs::new("vh-c18h-");
+	let cmd = Command {
+		program: Program::Exec {
+			prog: helper_path(),
+			args: vec![
+				"run".into(),
+				"--log".into(),
+				logs.log().to_string_lossy().into_owned(),
+				"--lock".into(),
+				logs.dir.path().join("lock").to_string_lossy().into_owned(),
+				"--on-signal".into(),
+				if c.ignore { "ignore".into() } else { "exit".into() },
+			],
+		},
+		options: SpawnOptions::default(),
+	};
+	let rt = tokio::runtime::Builder::new_current_thread().enable_all().build().unwrap();
+	let names = ["restart", "try_restart", "restart_with_signal", "try_restart_with_signal"];
+	let res: Result<(), String> = rt.block_on(async {
+		let (job, task) = start_job(Arc::new(cmd));
+		let value = c.value.clone();
+		job.set_spawn_hook(move |cmd, _| {
+			cmd.command_mut().env("VERIF_HOOK_ENV", &value);
+		});
+		let starts = |logs: &super::c08::Logs| logs.lines().iter().filter(|l| l[0] == "start").count();
+		let wait_for = |n: usize| {
+			let logs = &logs;
+			async move {
+				let until = std::time::Instant::now() + Duration::from_secs(5);
+				while starts(logs) < n && std::time::Instant::now() < until {
+					tokio::time::sleep(Duration::from_millis(3)).await;
+				}
+				starts(logs) >= n
+			}
+		};
+		job.start().await;
+		if !wait_for(1).await {
+			return Err("first start not observed".into());
+		}
+		for (k, op) in c.ops.iter().enumerate() {
+			let g = Duration::from_millis(120);
+			match op % 4 {
+				0 => job.restart().await,
+				1 => job.try_restart().await,
+				2 => job.restart_with_signal(Signal::Terminate, g).await,
+				_ => job.try_restart_with_signal(Signal::Terminate, g).await,
+			};
+			if !wait_for(k + 2).await {
+				return Err(format!("no new process after {} (op {k})", names[(*op % 4) as usize]));
+			}
+		}
+		job.delete_now().await;
+		let _ = task.await;
+		Ok(())
+	});
+	let pids = logs.pids();
+	super::c08::kill_all(&pids);
+	if let Err(e) = res {
+		o.fail("harness:hook-paths", format!("{e}\ncase {c:?}\n{}", std::fs::read_to_string(logs.log()).unwrap_or_default()));
+		return o;
+	}
+	let want = format!("VERIF_HOOK_ENV={}", c.value.as_bytes().iter().map(|b| format!("{b:02x}")).collect::<String>());
+	for (k, l) in logs.lines().iter().filter(|l| l[0] == "start").enumerate() {
+		let has = l.iter().any(|f| f.split(',').any(|kv| kv == want));
+		if !has {
+			let via = if k == 0 { "start".to_string() } else { names[(c.ops[k - 1] % 4) as usize].to_string() };
+			o.fail(
+				format!("hook-env-not-visible:{via}"),
+				format!("process #{k} (spawned by {via}) does not see the environment set by the spawn hook: {l:?}\ncase {c:?}"),
+			);
+			return o;
+		}
+	}
+	o
+}
+
 // ------------------------------------------------------------------ CLI leg
 
 #[derive(Clone, Debug, Serialize, Deserialize)]
@@ -330,6 +422,19 @@ pub fn check(e: &Engine) {
 		&run,
 	);
 	e.require_label("argv", "special-characters", 0.5);
+	e.explore(
+		"hook-on-every-spawn-path",
+		LegOpts {
+			cases: e.tier.pick(64, 1500),
+			shards: 16,
+			threads: 16,
+			confirm: 1,
+			max_shrink_iters: 20,
+			rule: "real processes: a job with an env-setting spawn hook goes through 1-4 of restart / try_restart / restart_with_signal / try_restart_with_signal with a command that exits on or ignores the stop signal (grace 120 ms); every spawned process must see the hook's environment",
+		},
+		&|| (proptest::collection::vec(0u8..4, 1..5), any::<bool>(), "[a-z ]{1,8}").prop_map(|(ops, ignore, value)| HookPathCase { ops, ignore, value }).boxed(),
+		&run_hook_paths,
+	);
 	e.explore(
 		"cli",
 		LegOpts {
